@@ -33,6 +33,7 @@ type wrapReq struct {
 	Ks       []string     `json:"ks"`
 	Stride   int          `json:"stride"`
 	Classes  []string     `json:"classes"`
+	Paths    []string     `json:"paths"` // noncanon: only these leaves (targets computed from the canonical-set trace)
 }
 
 func init() { drv.Register("wrapper", wrapperDrv) }
@@ -325,17 +326,27 @@ func noncanonRun(req wrapReq, resp *drv.Response) error {
 	for _, c := range req.Classes {
 		want[c] = true
 	}
+	only := map[string]bool{}
+	for _, p := range req.Paths {
+		only[p] = true
+	}
 	n := 0
 	for li, lf := range leaves {
 		if !lf.GL || strings.HasPrefix(lf.Path, "PWPI.PublicInputs") {
 			continue
 		}
 		n++
-		if req.Stride > 1 && (n+req.Shard)%req.Stride != 0 {
-			continue
-		}
-		if req.NShards > 0 && li%req.NShards != req.Shard {
-			continue
+		if len(only) > 0 {
+			if !only[lf.Path] {
+				continue
+			}
+		} else {
+			if req.Stride > 1 && (n+req.Shard)%req.Stride != 0 {
+				continue
+			}
+			if req.NShards > 0 && li%req.NShards != req.Shard {
+				continue
+			}
 		}
 		old := lf.Get()
 		for _, ks := range req.Ks {
@@ -350,7 +361,9 @@ func noncanonRun(req wrapReq, resp *drv.Response) error {
 				continue
 			}
 			lf.Set(nv)
-			cfg := &engine.Config{Mode: engine.Native, RecordEvts: locEvents}
+			// Permissive: where gnark's honest hint function refuses an operand >= p (a property of the test engine's solver, not a
+			// constraint), a generic hint supplies the quotient / remainder a prover could supply, so that only constraints decide
+			cfg := &engine.Config{Mode: engine.Native, RecordEvts: locEvents, Permissive: true}
 			err := hc.RunVerifier(cfg, l, l)
 			out := hc.Outcome(err)
 			lf.Set(old)
@@ -391,5 +404,12 @@ func canonSet(req wrapReq, resp *drv.Response) error {
 	resp.Count("canonset/"+req.Instance, false)
 	resp.Count("canonset2/"+req.Instance, false)
 	resp.Note("canonical_leaves", len(recs))
+	var all []string
+	for _, lf := range walkPrefixed("PWPI.", &l.PWPI) {
+		if lf.GL && !strings.HasPrefix(lf.Path, "PWPI.PublicInputs") {
+			all = append(all, lf.Path)
+		}
+	}
+	resp.Note("gl_proof_leaves", all)
 	return writeNdjson(req.Ks[0], recs)
 }
